@@ -15,14 +15,15 @@ FrameMenu == [len : Lens, kind : Kinds, plug : PlugMenu]
 FrameMenu2 == [len : {5}, kind : {"ok", "undec", "big"}, plug : {<<>>, <<"user404">>, <<"ok">>}]
 Tails == {<<0, 0>>, <<3, 0>>, <<9, 5>>}     \* <<bytes of an incomplete frame, body length its header announces>>
 
-Mk(c, fr, tl) == [cfg |-> c, frames |-> fr, tail |-> tl[1], tneed |-> tl[2]]
+\* (record-set products filtered by a predicate: TLC enumerates those in linear time; a three-variable set comprehension
+\* of the same 8 640 plans took 75 s to normalise)
+TailOK(p) == <<p.tail, p.tneed>> \in Tails
 FrameMenuQ == [len : Lens, kind : Kinds, plug : {<<>>, <<"ok">>, <<"user404">>, <<"disabled", "okB">>}]
 FrameMenuQ2 == [len : {5}, kind : {"ok", "undec"}, plug : {<<>>, <<"user404">>}]
-PlansQuick == {Mk(c, fr, tl) : c \in CfgMenu, tl \in Tails,
-               fr \in {<<f>> : f \in FrameMenuQ} \cup {<<f, g>> : f \in FrameMenuQ, g \in FrameMenuQ2}}
-PlansThorough == {Mk(c, fr, tl) : c \in CfgMenu, tl \in Tails,
-                  fr \in {<<f>> : f \in FrameMenu} \cup {<<f, g>> : f \in FrameMenu, g \in FrameMenu}
-                           \cup {<<f, g, h>> : f \in FrameMenu2, g \in FrameMenu2, h \in FrameMenu2}}
+FramesQ == {<<f>> : f \in FrameMenu} \cup (FrameMenu \X FrameMenu2)
+FramesT == {<<f>> : f \in FrameMenu} \cup (FrameMenu \X FrameMenu) \cup (FrameMenu2 \X FrameMenu2 \X FrameMenu2)
+PlansQuick == {p \in [cfg : CfgMenu, frames : FramesQ, tail : {0, 3, 9}, tneed : {0, 5}] : TailOK(p)}
+PlansThorough == {p \in [cfg : CfgMenu, frames : FramesT, tail : {0, 3, 9}, tneed : {0, 5}] : TailOK(p)}
 
 \* negative control: a receive loop that asks for a full buffer regardless of what the frame still needs
 \* (the recv argument is min(need, MaxBuf) in the code); modelled by letting Recv over-consume
